@@ -35,15 +35,15 @@ PROPS = {
         "assumptions": DEFS_BY_CODE,
     },
     "C05": {
-        "level": "proof", "prove": True, "ground": ["noOperatorPrefix", "idsAreIDCH", "foldUnique"],
+        "level": "proof", "prove": True, "ground": ["noOperatorPrefix", "idsAreIDCH", "foldUnique", "noEmptyId"],
         "bounded": {"search": "C05", "quick": "6s", "thorough": "120s",
-                    "what": "how the regexp-based readers cut the text into lexemes (DocumentRef-/LicenseRef- names, maximal id runs, skipping of spaces) and how scan strings the tokens together is not under a functional contract; the whole scanner is compared with a reference lexer written from the property text on all strings of <= 4 lexemes over the alphabet of the property, loose and tight spacing (BOUNDED, not counted as proved)"},
+                    "what": "BOUNDED cross-check (not part of the proof): the whole scanner is compared with an independently written reference lexer on all strings of <= 4 lexemes over the alphabet of the property, loose and tight spacing"},
         "assumptions": DEFS_BY_CODE + [
             "token level (proved): parse succeeds on a token sequence iff the reference grammar derives exactly that sequence, and the tree is the grammar's tree",
-            "lexical level (proved): the scanner's buffer/offset relation - no character of the caller's string is dropped or invented by the -or-later rewrite; operator recognition (first of WITH AND OR ( ) : + that prefixes the text, '+' after a space is an error); id classification and normalisation (a lexeme is accepted iff it is a valid id in the sense of the property, and the token carries the canonical list entry it denotes, with the documented -only / -or-later / '+' rules and their effect on the cursor)",
-            "lexical level (bounded): cutting the text into lexemes by the regexp readers and the assembly of the token sequence in scan. A functional contract for this part (token sequence as a recursive spec function of the text) was written and proved once, but the string obligations were not robust (solver times between 1 s and > 60 s under reordering), so it is not registered; see DESIGN.md 11.6",
-            "table hypotheses used as axioms by the normalisation contracts: no two entries of a list are equal up to case (ground: foldUnique)",
-            "regexp FindStringIndex on the two literal class patterns returns the leftmost-longest match (assumed contract)",
+            "lexical level (proved): scan's token sequence is the reference lexer's, position by position (clauses lexOK / lexFail of scan, lexRef / lexRefFail of parse): the reference lexer is written from the property text over positions of the caller's string - skip spaces; the first of WITH AND OR ( ) : + that prefixes the text is an operator ('+' right after a space is an error); DocumentRef-/LicenseRef- followed by a maximal, non-empty run of id characters; otherwise the maximal id run, classified by the documented normalisation (nCase/nRole/nVal = normCase/normRole/normVal: listed id; X-only; X followed by '+'; unlisted X-or-later -> X and a synthesised '+'; deprecated id; else error). Every reader function (readOperator, readID, readDocumentRef, readLicenseRef, readLicense, normalizeLicense, parseToken) is proved against one step of it, the loop of scan against the recursive sequence (posK, pendK, noStopBefore); lemmas noStopPrefix (integer induction, cvc5) and firstStopUnique show that the reference lexer stops exactly once, so 'ends after n tokens' and 'fails at token k' are exclusive",
+            "Lexable / TokLen / TokSeq remain names for the scanner's output (definitions by the code, C13), now PROVED to satisfy the reference characterisation; the -or-later rewrite of the buffer is covered by the buffer/offset relation (no character of the caller's string dropped or invented)",
+            "table hypotheses used as axioms by the normalisation contracts: no two entries of a list are equal up to case (ground: foldUnique), no listed id is empty (ground: noEmptyId)",
+            "assumed contract of regexp: FindStringIndex on the two literal class patterns returns the leftmost-longest match, stated with runLen(s, class) = length of the maximal class prefix of s (uniquely characterised by: in bounds, a prefix of class characters, followed by a non-class character or the end); strings.EqualFold is an equivalence and only \"\" folds to \"\"",
         ],
     },
     "C06": {
